@@ -157,6 +157,14 @@ func (c *fnCtx) run() (err error) {
 		// over built-in calls with arbitrary Starlark values, not over nil Go pointers):
 		// receivers, pointer and interface parameters are non-nil; the elements of an argument
 		// tuple are non-nil values; keyword arguments are (String, value) pairs.
+		// captured variables: a by-reference capture is the address of a live variable of the
+		// enclosing activation; a by-value captured pointer falls under the same convention as a
+		// receiver
+		for _, fv := range fn.FreeVars {
+			if v := c.vals[fv]; v.K == KRef {
+				c.assume(st, sNot(sEq(v.S, "nil")))
+			}
+		}
 		for _, p := range fn.Params {
 			v := c.vals[p]
 			switch v.K {
